@@ -105,6 +105,23 @@ def thawed(obj: Any):
         obj.__dict__.pop("__spec_class_initializing__", None)
 
 
+@contextlib.contextmanager
+def _rollback_on_error(obj: Any):
+    """
+    Restore the attributes of `obj` if the wrapped block raises, so that
+    multi-attribute in-place mutations are all-or-nothing.
+    """
+    state = getattr(obj, "__dict__", None)
+    saved = dict(state) if state is not None else None
+    try:
+        yield obj
+    except BaseException:
+        if saved is not None:
+            state.clear()
+            state.update(saved)
+        raise
+
+
 def mutate_attr(
     obj: Any,
     attr: str,
@@ -318,7 +335,7 @@ def mutate_value(
         if not mutate_safe:
             value = protect_via_deepcopy(value)
             mutate_safe = True
-        with thawed(value) if not inplace else contextlib.nullcontext():
+        with thawed(value) if not inplace else _rollback_on_error(value):
             for attr, attr_value in attrs.items():
                 if attr in used_attrs:
                     continue
@@ -335,7 +352,7 @@ def mutate_value(
     if attr_transforms:
         if not mutate_safe:
             value = protect_via_deepcopy(value)
-        with thawed(value) if not inplace else contextlib.nullcontext():
+        with thawed(value) if not inplace else _rollback_on_error(value):
             for attr, attr_transform in attr_transforms.items():
                 transformed_value = attr_transform(getattr(value, attr, MISSING))
                 if transformed_value is not MISSING:
